@@ -88,6 +88,21 @@ def rdiv(a, b):
     return Fraction(a) / Fraction(b)
 
 
+def abstract(name, native_fn, *args):
+    """
+    abstract predicate `name` over scalars and (abstract) objects: natively `native_fn(*args)`
+    decides it on the real objects; symbolically it is an uninterpreted Bool function of the
+    arguments (objects contribute their identity), so a contract that mentions it holds for
+    every interpretation, i.e. for every concrete context family.
+    """
+    return bool(native_fn(*args))
+
+
+def abstract_int(name, native_fn, *args):
+    """as `abstract`, but an int-valued function"""
+    return int(native_fn(*args))
+
+
 GHOST = {}
 
 
